@@ -200,13 +200,17 @@ Definition discipline_ok (o : observed) : bool :=
    program: error code, allocation, final nodes.  Its allocation must be valid for the program the
    passes are meant to compile (the staged run's instructions after zero-extension, with their
    successors), and its result must be the staged result. *)
-Definition e2e_t := (N * list (N * N) * list node)%type.
+Definition e2e_t := (N * list (N * N) * list node * N)%type.   (* error code, allocation, final nodes, LocalSize *)
 Definition e2e_alloc_ok (ce : pcase * e2e_t) : bool :=
-  let o := snd (fst ce) in let '(err, al, ns) := snd ce in
+  let o := snd (fst ce) in let '(err, al, ns, loc) := snd ce in
   if (err =? 0) && reached_alloc o then match prog_regs_of o with Some pr => allocation_valid al pr | None => true end else true.
 Definition pairN_eqb (a b : N * N) : bool := (fst a =? fst b) && (snd a =? snd b).
 Definition e2e_same (ce : pcase * e2e_t) : bool :=
-  let o := snd (fst ce) in let '(err, al, ns) := snd ce in
-  (err =? o_err o) && (if err =? 0 then nodes_eqb ns (o_nodes o) && list_eqb pairN_eqb al (o_alloc o) else true).
+  let o := snd (fst ce) in let '(err, al, ns, loc) := snd ce in
+  (err =? o_err o) && (if err =? 0 then nodes_eqb ns (o_nodes o) && list_eqb pairN_eqb al (o_alloc o) && (loc =? o_local o) else true).
+(* C15 on the end-to-end result: a function whose final code writes the base pointer has a frame and is not NOFRAME *)
+Definition e2e_bp_ok (rf : regfile) (ce : pcase * e2e_t) : bool :=
+  let '(err, al, ns, loc) := snd ce in
+  if err =? 0 then negb (clobbers_bp rf (instructions ns)) || ((N.land (fattrs (fst (fst ce))) NOFRAME =? 0) && negb (loc =? 0)) else true.
 Definition where_not2 (f : pcase * e2e_t -> bool) (cs : list pcase) (es : list e2e_t) : list N :=
   idx_where (fun c => negb (f c)) (List.combine cs es).
